@@ -363,10 +363,36 @@ def zeros(n):
     return _real_np.zeros(n)
 
 
+GLOBAL_RANDOM_HOOK = [None]  # harnesses install a SymRng here; its use means "the library drew from numpy's global state"
+
+
 class _Random:
     @staticmethod
     def default_rng(seed=None):
         return _real_np.random.default_rng(seed)
+
+    @staticmethod
+    def _hook():
+        h = GLOBAL_RANDOM_HOOK[0]
+        if h is None:
+            raise core.Unsupported("numpy.random.<legacy global function> used and no hook installed")
+        return h
+
+    @staticmethod
+    def choice(a, size=None, replace=True, p=None):
+        return _Random._hook().choice(a, size=size, replace=replace, p=p)
+
+    @staticmethod
+    def random(size=None):
+        return _Random._hook().random(size)
+
+    @staticmethod
+    def rand(*a):
+        return _Random._hook().random(None)
+
+    @staticmethod
+    def uniform(low=0.0, high=1.0, size=None):
+        return _Random._hook().uniform(low, high, size)
 
 
 class Shim:
